@@ -1,0 +1,76 @@
+//go:build verif
+
+package lintcmd
+
+import (
+	"honnef.co/go/tools/analysis/lint"
+	"honnef.co/go/tools/lintcmd/runner"
+)
+
+// Verification hook (build tag verif): exported wrappers around parseDirectives and filterIgnored so
+// that they can be driven in-process on generated (diagnostics, directives, allowed-checks) triples.
+
+// VerifC10Diag mirrors the unexported type diagnostic.
+type VerifC10Diag struct {
+	runner.Diagnostic
+	Severity  int // 0 error, 1 warning, 2 ignored
+	MergeIf   int
+	BuildName string
+}
+
+// VerifC10Ignore mirrors lineIgnore / fileIgnore as produced by parseDirectives.
+type VerifC10Ignore struct {
+	IsLine bool
+	File   string
+	Line   int
+	Checks []string
+}
+
+func verifC10In(ds []VerifC10Diag) []diagnostic {
+	var out []diagnostic
+	for _, d := range ds {
+		out = append(out, diagnostic{Diagnostic: d.Diagnostic, Severity: severity(d.Severity), MergeIf: lint.MergeStrategy(d.MergeIf), BuildName: d.BuildName})
+	}
+	return out
+}
+
+func verifC10Out(ds []diagnostic) []VerifC10Diag {
+	var out []VerifC10Diag
+	for _, d := range ds {
+		out = append(out, VerifC10Diag{Diagnostic: d.Diagnostic, Severity: int(d.Severity), MergeIf: int(d.MergeIf), BuildName: d.BuildName})
+	}
+	return out
+}
+
+// VerifC10FilterIgnored runs filterIgnored. allowed maps check names (any case) to their enabled bit.
+func VerifC10FilterIgnored(diags []VerifC10Diag, dirs []runner.SerializedDirective, allowed map[string]bool) ([]VerifC10Diag, error) {
+	m := map[caseFoldedString]bool{}
+	for k, v := range allowed {
+		m[makeCaseFoldedString(k)] = v
+	}
+	out, err := filterIgnored(verifC10In(diags), runner.ResultData{Directives: dirs}, m)
+	return verifC10Out(out), err
+}
+
+// VerifC10ParseDirectives runs parseDirectives.
+func VerifC10ParseDirectives(dirs []runner.SerializedDirective) ([]VerifC10Ignore, []VerifC10Diag) {
+	igs, diags := parseDirectives(dirs)
+	var out []VerifC10Ignore
+	for _, ig := range igs {
+		switch ig := ig.(type) {
+		case *lineIgnore:
+			v := VerifC10Ignore{IsLine: true, File: ig.File, Line: ig.Line}
+			for _, c := range ig.Checks {
+				v.Checks = append(v.Checks, c.String())
+			}
+			out = append(out, v)
+		case *fileIgnore:
+			v := VerifC10Ignore{File: ig.File}
+			for _, c := range ig.Checks {
+				v.Checks = append(v.Checks, c.String())
+			}
+			out = append(out, v)
+		}
+	}
+	return out, verifC10Out(diags)
+}
